@@ -271,6 +271,11 @@ func (f *Frame) applyContract(spec *UnitSpec, name string, c *ssa.CallCommon, si
 		if !ok {
 			continue
 		}
+		if r.Kind == "requires-inv" {
+			u.assume(st, t)
+			u.AssumedUse["object invariant of "+name+": "+r.Label] = true
+			continue
+		}
 		lab := r.Label
 		if lab == "" {
 			lab = fmt.Sprintf("%d", i+1)
@@ -296,6 +301,19 @@ func (f *Frame) applyContract(spec *UnitSpec, name string, c *ssa.CallCommon, si
 		}
 	} else {
 		for _, m := range spec.Modifies {
+			if strings.HasPrefix(m, "$") {
+				gt, ok := u.eng.GlobalGhosts[m]
+				if !ok {
+					u.errorf("%s: modifies unknown ghost %s", spec.Name, m)
+					continue
+				}
+				srt, _ := env.resolveType(gt)
+				if _, has := st.ghost[m]; !has {
+					pre.ghost[m] = u.ghostInit(m, srt)
+				}
+				st.ghost[m] = u.defs.Fresh("gh_"+m, srt)
+				continue
+			}
 			for _, cls := range u.resolveModClasses(m, spec.Pkg) {
 				u.havocClass(st, cls)
 			}
@@ -320,8 +338,6 @@ func (f *Frame) applyContract(spec *UnitSpec, name string, c *ssa.CallCommon, si
 			}
 		}
 	}
-	// lock effects
-	f.lockEffects(spec, argMap, st)
 	env = mkEnv(st, extra)
 	var posts []Term
 	for _, en := range spec.Ensures {
@@ -367,26 +383,6 @@ func (u *Unit) resolveModClasses(item, pkg string) []string {
 		return out
 	}
 	return []string{item}
-}
-
-// lockEffects interprets contract options "lock=<param>" / "unlock=<param>".
-func (f *Frame) lockEffects(spec *UnitSpec, argMap map[string]TV, st *State) {
-	u := f.u
-	for _, k := range []string{"lock", "unlock"} {
-		p, ok := spec.Opts[k]
-		if !ok {
-			continue
-		}
-		tv, ok := argMap[p]
-		if !ok {
-			continue
-		}
-		h, okh := st.ghost["$held"]
-		if !okh {
-			h = u.heldInit()
-		}
-		st.ghost["$held"] = u.defs.Define("held", Store(h, tv.T, BoolLit(k == "lock")))
-	}
 }
 
 // ---------------------------------------------------------------------------
@@ -477,7 +473,6 @@ func (f *Frame) execBuiltin(b *ssa.Builtin, c *ssa.CallCommon, args []Val, st *S
 	case "delete":
 		mt := c.Args[0].Type().Underlying().(*types.Map)
 		u.mapDelete(st, mt, args[0].T, args[1].T)
-		u.havocClass(st, "MapLen."+mapDomClass(mt)[7:])
 		return Val{}
 	case "copy":
 		// copy(dst, src): dst elements havoced, count returned
@@ -643,6 +638,10 @@ func (f *Frame) useLemma(c *Clause, env *Env, st *State) {
 	n.lookup = saved
 	if ok {
 		u.assume(st, t)
-		u.LemmasUsed[call.Fn] = true
+		if lm.Assumed {
+			u.AssumedUse["axiom lemma "+call.Fn+": "+lm.Text] = true
+		} else {
+			u.LemmasUsed[call.Fn] = true
+		}
 	}
 }
